@@ -291,6 +291,14 @@ func c02Run(c *vlib.Ctx, idx int, sc c02Scenario) {
 	if long {
 		apiTimeout = 200 * time.Second
 	}
+	for _, t := range sc.Tasks {
+		if t.Outcome == "undeliverable" {
+			// refused call -> resubscription -> replies of the other targets lost -> their 90/120 s
+			// timeouts, then the clean-up path's own commands can time out as well: chains of the
+			// code's own timeouts, so the watchdog is wider
+			apiTimeout = 480 * time.Second
+		}
+	}
 	expect := sc.expectSuccess()
 	either := false // outcome not determined by the scenario
 	for _, t := range sc.Tasks {
